@@ -185,6 +185,19 @@ def run(ctx):
     rule8_descent(ctx, w)
     rule9_union(ctx)
     rule10_halfopen(ctx)
+    # "shrinking a DAG during conversion preserves its totals": the per-kind edge totals of a contracted node and of the subgraph it
+    # replaces agree, and the reader sums both (decided in full as C18.4)
+    from . import c18
+    ctx._in_c19_share = True
+    try:
+        with ctx.shared({'C18.4': 'C19.11'}, floor=28,
+                        doc='shrinking preserves the edge totals (shared with C18.4): every edge kind the enumerator emits for an '
+                            'uncontracted subgraph is counted for a contracted one, by one, and dr_calc_edges sums contracted nodes and '
+                            'explicit edges into a fully cleared kinds x (nw+1) x (nw+1) table with worker -1 mapped to the extra row'):
+            c18.run(ctx)
+    finally:
+        ctx._in_c19_share = False
+        ctx.unit = 'libdr'
 
 
 UNION_FIELDS = ('dr_pi_dag_node.subgraphs_begin_offset', 'dr_pi_dag_node.subgraphs_end_offset', 'dr_pi_dag_node.child_offset')
@@ -700,7 +713,74 @@ def rule4_strings(ctx, w):
         ctx.ob('C19.4', 'append exactly when the string is new', okg, 'idx == t->n <=> not found', loc=apps[0].loc)
         ctx.ob('C19.4', 'intern returns the looked-up index', all(same_value(g, r.ops[0], finds[0].id) for r in g.exits() if r.ops) and bool(g.exits()),
                'the index of an existing string, or n (the slot the append fills)', loc=g.loc)
-    ctx.floor('C19.4', 10)
+    # positions: the file index written for the start / end position of a copied node is the interned *own* file name of that
+    # position of the source node (dr_copy_dag_node_1 from the recorded node, the shrinking copy from the source DAG's table)
+    from ..ir import EdgePoint, iter_refs
+    nsites = 0
+    for fn in w.functions.values():
+        sts = [st for st in fn.order if st.op == 'store' and fn.field(st) == 'code_pos.file_idx']
+        if not sts:
+            continue
+        ctx.fn_analysed.add(fn.name)
+
+        def which_of(addr):
+            fl_ = fn.ap(addr).fields
+            return 'start' if 'dr_dag_node_info.start' in fl_ else 'end' if 'dr_dag_node_info.end' in fl_ else None
+
+        def pos_loads(ref, seen=None):
+            """position-name loads (code_pos.file / file_idx) in the backward slice of ref, through address computations"""
+            seen = set() if seen is None else seen
+            ins = fn.get(ref) if isinstance(ref, str) else None
+            if ins is None or ins.id in seen:
+                return []
+            seen.add(ins.id)
+            if ins.op == 'load' and fn.field(ins) in ('code_pos.file', 'code_pos.file_idx'):
+                return [ins]
+            if ins.op in ('call', 'alloca'):
+                return [x for a in ins.args[1:2] for x in pos_loads(a, seen)] if ins.callee == 'dr_string_table_intern' else []
+            return [x for r in iter_refs(ins.d) for x in pos_loads(r, seen)]
+
+        # the node(s) whose names are interned in this function
+        R = set(fn.strip(fn.ap(l.ops[0]).root) for c in call_sites(fn, 'dr_string_table_intern') for l in pos_loads(c.args[1]))
+        for st in sts:
+            wh = which_of(st.ops[1])
+            nsites += 1
+            vi = fn.get(fn.strip(st.ops[0]))
+            alts = [(vi.id, None)] if vi is None or vi.op != 'phi' else [(v, b) for v, b in vi.d['incoming']]
+            ok, why = wh is not None, ''
+            for v, b in alts:
+                srcs = [fn.insts[k] for k in fn.sources(v) if k in fn.insts]
+                calls = [c for c in srcs if c.op == 'call' and c.callee == 'dr_string_table_intern']
+                # an index read back from the copy being filled stands for the position it was stored for
+                back = [l for l in srcs if l.op == 'load' and fn.field(l) == 'code_pos.file_idx' and
+                        same_value(fn, fn.ap(l.ops[0]).root, fn.ap(st.ops[1]).root)]
+                if not srcs or len(calls) + len(back) != len(srcs):
+                    ok, why = False, 'not an interned index'
+                    break
+                tags = set(which_of(l.ops[0]) for c in calls for l in pos_loads(c.args[1])) | set(which_of(l.ops[0]) for l in back)
+                if tags == {wh}:
+                    continue
+                # the other position's index is acceptable only where the two names of the source node were compared equal
+                guarded = False
+                if tags and None not in tags:
+                    point = EdgePoint(fn, b, vi.block.id) if b is not None else st
+                    roots = R
+                    for ic in fn.order:
+                        if ic.op == 'icmp' and ic.pred == 'eq':
+                            ls = [fn.get(fn.strip(o)) for o in ic.ops]
+                            if all(l is not None and l.op == 'load' and fn.field(l) in ('code_pos.file', 'code_pos.file_idx') and
+                                   fn.strip(fn.ap(l.ops[0]).root) in roots for l in ls) and \
+                                    set(which_of(l.ops[0]) for l in ls) == {'start', 'end'} and \
+                                    any(fn.on_edge(c_, p_, point) for c_, p_ in lib.cond_chain(fn, ic.id)):
+                                guarded = True
+                if not guarded:
+                    ok, why = False, 'index interned from the %s name' % '/'.join(sorted(str(t) for t in tags))
+                    break
+            ctx.ob('C19.4', '%s: %s.pos.file_idx is the interned %s file name of the source node' % (fn.name, wh, wh), ok,
+                   'the file index stored for a position names that position\'s own file (a node that starts in one source file and '
+                   'ends in another must read back with both names)', loc=st.loc, detail=why)
+    ctx.ob('C19.4', 'file-index stores found', nsites >= 4, 'start and end index in the recording copy and in the shrinking copy', loc=f.loc)
+    ctx.floor('C19.4', 15)
 
 
 def rule5_growth(ctx):
@@ -869,6 +949,8 @@ def rule5_growth(ctx):
 DUMP = 'src/profiler/dr_dump.c'
 READ = 'src/profiler/read_dag.c'
 MUTANTS = [
+    {'name': 'copied node takes its end file index from the start position (seed3 C19/m2)', 'expect': 'C19.4',
+     'edits': [('src/profiler/dr_dump.c', "  p->info.end.pos.file_idx\n    = dr_string_table_intern(st, g->info.end.pos.file);", "  p->info.end.pos.file_idx\n    = dr_string_table_intern(st, g->info.start.pos.file);")]},
     {'name': 'dump writes m before n', 'expect': 'C19.1',
      'edits': [(DUMP, "      || fwrite(&G->n, sizeof(G->n), 1, wp) != 1\n      || fwrite(&G->m, sizeof(G->m), 1, wp) != 1", "      || fwrite(&G->m, sizeof(G->m), 1, wp) != 1\n      || fwrite(&G->n, sizeof(G->n), 1, wp) != 1")]},
     {'name': 'reader skips num_workers', 'expect': 'C19.1',
